@@ -227,12 +227,16 @@ func itemStep(it Item, when func(*ref.ClientStream) bool, method byte, segs []in
 	}}
 }
 
+// otelOn makes every client use OpenTelemetryInstrumentation (set by the race scenarios).
+var otelOn bool
+
 func baseOptions(clientRev int, comp compMode) ch.Options {
 	return ch.Options{
-		ProtocolVersion:  clientRev,
-		Compression:      comp.Opt,
-		CompressionLevel: comp.Level,
-		Logger:           zap.NewNop(),
+		ProtocolVersion:              clientRev,
+		Compression:                  comp.Opt,
+		CompressionLevel:             comp.Level,
+		Logger:                       zap.NewNop(),
+		OpenTelemetryInstrumentation: otelOn,
 	}
 }
 
